@@ -38,6 +38,19 @@ type spec struct {
 	Module    string      `json:"module"`
 	Functions []specFunc  `json:"functions"`
 	Tables    []specTable `json:"tables,omitempty"`
+	// library functions that stay named external functions: calls become applications of a hand-written Gallina
+	// function of type args -> gres result (e.g. strings.ToValidUTF8 -> GoExt.strings_ToValidUTF8)
+	Externals []specExternal `json:"externals,omitempty"`
+	// calls made for their effect on the outside world only (logging): dropped, arguments not evaluated
+	IgnoreCalls []string `json:"ignore_calls,omitempty"`
+	Require     []string `json:"require,omitempty"` // extra Coq modules the generated file imports (for the externals)
+}
+
+type specExternal struct {
+	Func   string   `json:"func"`   // "<import path>.<Name>"
+	Coq    string   `json:"coq"`    // Gallina function
+	Params []string `json:"params"` // "bytes" | "int" | "byte" | "bool"
+	Result string   `json:"result"`
 }
 
 type summary struct {
